@@ -82,3 +82,105 @@ func TestGovcHarness_RandEnum(t *testing.T) {
 		}
 	}
 }
+
+// ---- second scenario: types from a same-named package, a sentinel constant, a pointer-receiver member.
+// (Whether the emitted file compiles — its import list in particular — is C01, not checked here.)
+
+const govcC15Root = `package models
+
+import smodels "example.com/org/m/store/models"
+
+type Status int
+
+const (
+	Draft Status = iota
+	Live
+)
+
+type Kind int
+
+const (
+	K0 Kind = iota
+	K1
+	NbKinds Kind = 2 // gomacro:no-enum
+)
+
+type Shape interface{ isShape() }
+
+type Circle struct{ R int }
+
+func (Circle) isShape() {}
+
+type Square struct{ S int }
+
+func (*Square) isShape() {}
+
+type Row struct {
+	Local  Status
+	Remote smodels.Status
+	K      Kind
+	Sh     Shape
+	Sq     Square
+}
+`
+
+const govcC15Store = `package models
+
+type Status string
+
+const (
+	Hot  Status = "hot"
+	Cold Status = "cold"
+)
+`
+
+func TestGovcHarness_RandPackages(t *testing.T) {
+	os.Setenv("GOFLAGS", "-mod=mod")
+	os.Setenv("GOPROXY", "off")
+	cases := 0
+	defer func() { fmt.Printf("GOVC-CASES %d\n", cases) }()
+	root, _ := os.MkdirTemp("/var/tmp", "govc-c15b-")
+	defer os.RemoveAll(root)
+	os.WriteFile(root+"/go.mod", []byte("module example.com/org/m\n\ngo 1.21\n"), 0o644)
+	os.MkdirAll(root+"/models", 0o755)
+	os.MkdirAll(root+"/store/models", 0o755)
+	os.WriteFile(root+"/models/root.go", []byte(govcC15Root), 0o644)
+	os.WriteFile(root+"/store/models/m.go", []byte(govcC15Store), 0o644)
+	pkg, err := analysis.LoadSource(root + "/models/root.go")
+	if err != nil {
+		t.Fatal(err)
+	}
+	ana := analysis.NewAnalysisFromFile(pkg, root+"/models/root.go")
+	code := generator.WriteDeclarations(Generate(ana))
+	expect := func(what string, ok bool) {
+		cases++
+		if !ok {
+			fmt.Printf("GOVC-FAIL {\"check\":%q}\n", what)
+			t.Errorf("%s\n--- generated:\n%s", what, code)
+		}
+	}
+	// 2. an enum with a sentinel excluded by the marker still draws from its exported constants
+	var kindChoices string
+	for _, m := range govcChoix.FindAllStringSubmatch(code, -1) {
+		if m[1] == "Kind" {
+			kindChoices = strings.Join(strings.Fields(m[2]), "")
+		}
+	}
+	expect("Kind draws from exactly {K0, K1} (got {"+kindChoices+"})", kindChoices == "K0,K1")
+	// 3. only the types that implement the interface are drawn for a union
+	expect("the union Shape is drawn among 1 member", strings.Contains(code, "rand.Intn(1)") && !strings.Contains(code, "rand.Intn(2)"))
+	// 4. same-named enums of two packages keep their own generators: each field is filled by a function
+	// returning the field's own type
+	retType := map[string]string{}
+	for _, m := range regexp.MustCompile(`func (\w+)\(\) ([\w.]+) \{`).FindAllStringSubmatch(code, -1) {
+		retType[m[1]] = m[2]
+	}
+	filler := map[string]string{}
+	for _, m := range regexp.MustCompile(`s\.(\w+) = (\w+)\(\)`).FindAllStringSubmatch(code, -1) {
+		filler[m[1]] = m[2]
+	}
+	expect(fmt.Sprintf("Row.Local (Status) is filled by a function returning Status (got %s -> %s)", filler["Local"], retType[filler["Local"]]), retType[filler["Local"]] == "Status")
+	expect(fmt.Sprintf("Row.Remote (store/models.Status) is filled by a function returning models.Status (got %s -> %s)", filler["Remote"], retType[filler["Remote"]]), retType[filler["Remote"]] == "models.Status")
+	expect("the two Status generators are distinct functions", filler["Local"] != filler["Remote"] && filler["Local"] != "")
+	expect("the generator of the imported enum draws from the imported constants", strings.Contains(code, "[...]models.Status{models.Cold, models.Hot}"))
+}
